@@ -6,6 +6,8 @@ use std::path::Path;
 pub mod textlevel;
 pub mod util;
 
+mod selftest;
+
 pub mod c01;
 pub mod c02;
 pub mod c03;
